@@ -115,6 +115,16 @@ def hostile(rng, S):
             (f'bicond:{o}:lem', ((op(o, A, neg(A)),), B)),
         ]
     out.append(('dup-premises', ((A, A, op('MaterialConditional', A, B), A), B)))
+    for o in ('Conditional', 'MaterialConditional', 'Biconditional', 'MaterialBiconditional'):
+        out += [
+            (f'glut-glut:{o}', ((op(o, A, B), A, neg(A), neg(B)), C)),
+            (f'glut-glut:{o}:2', ((op(o, A, B), A, neg(A), B, neg(B)), C)),
+            (f'gap-gap:{o}', ((), op('Disjunction', op(o, A, B), op('Disjunction', A, op('Disjunction', neg(A), op('Disjunction', B, neg(B))))))),
+            (f'neg-cond-glut:{o}', ((neg(op(o, A, B)), B, neg(B)), neg(A))),
+        ]
+    out += [('explosion', ((A, neg(A)), B)), ('lem', ((B,), op('Disjunction', A, neg(A)))),
+            ('disj-syll', ((op('Disjunction', A, B), neg(A)), B)), ('mp', ((A, op('MaterialConditional', A, B)), B)),
+            ('mp:cond', ((A, op('Conditional', A, B)), B))]
     if S.quantified:
         Fa, Fb, Ga = syn.papp(F1, a), syn.papp(F1, b), syn.papp(G1, a)
         out += [
@@ -138,6 +148,11 @@ def hostile(rng, S):
             ('identity:binary', ((syn.papp(syn.IDENTITY, a, b), syn.papp(H2, a, a)), syn.papp(H2, b, b))),
             ('existence', ((), syn.papp(syn.EXISTENCE, a))),
             ('identity:neg', ((neg(syn.papp(syn.IDENTITY, a, b)), Fa), neg(Fb))),
+            # one identity with several applicable substitutions, only one of which matters
+            ('identity:multi-subst', ((Fa, syn.papp(H2, a, a), syn.papp(G1, c), Ga, syn.papp(syn.IDENTITY, a, b)), syn.papp(G1, b))),
+            ('identity:multi-subst:2', ((Fa, Ga, syn.papp(syn.IDENTITY, a, b), op('MaterialConditional', syn.papp(G1, b), A)), A)),
+            ('identity:multi-subst:3', ((syn.papp(H2, a, c), Fa, Ga, syn.papp(syn.IDENTITY, b, a)), op('Conjunction', syn.papp(G1, b), Fb))),
+            ('identity:symmetry-binary', ((syn.papp(syn.IDENTITY, a, b), syn.papp(H2, a, b)), syn.papp(H2, b, a))),
         ]
     if S.modal:
         P, N = 'Possibility', 'Necessity'
